@@ -634,6 +634,15 @@ pub async fn process_fully_buffered_changes(
                 info!(%actor_id, %version, "Inserted {count} rows from buffered into crsql_changes in {:?}", start.elapsed());
             } else {
                 info!(%actor_id, %version, "No buffered rows, skipped insertion into crsql_changes");
+                // nothing goes through crsql: record the version ourselves, the buffered meta
+                // that carried it so far is about to be cleared
+                process_empty_version(&tx, actor_id, &version).map_err(|source| {
+                    ChangeError::Rusqlite {
+                        source,
+                        actor_id: Some(actor_id),
+                        version: Some(version),
+                    }
+                })?;
             }
 
             if let Err(e) = agent.tx_clear_buf().try_send((actor_id, version..=version)) {
@@ -822,9 +831,10 @@ pub async fn process_multiple_changes(
                 let known = if change.is_complete() && change.is_empty() {
                     let versions = change.versions();
                     let end = *versions.end();
-                    // update db_version in db if it's greater than the max
+                    // update db_version in db if it's not below the max (a partial we are about
+                    // to drop may be all that recorded the max so far)
                     // since we aren't passing any changes to crsql
-                    if Some(end) > max {
+                    if Some(end) >= max {
                         process_empty_version(&tx, change.actor_id, &end).map_err(|e| {
                             ChangeError::Rusqlite {
                                 source: e,
